@@ -28,7 +28,11 @@ def sh(cmd, cwd=None, env=None, timeout=7200):
 
 def main():
     a = sys.argv[1:]
-    slot, runs, tier = "0", None, "quick"
+    slot, runs, tier, live = "0", None, "quick", False
+    while a and a[0] == "--live-sim":
+        # use /verif/sim as it is on disk (harness development); default: the committed HEAD of /verif
+        live = True
+        a = a[1:]
     while a and a[0].startswith("--"):
         if a[0] == "--slot":
             slot = a[1]
@@ -52,7 +56,12 @@ def main():
     sh("git checkout -q -- . && git clean -fdq -e target", cwd=wt)
     sh(f"git checkout -q --detach {head}", cwd=wt)
     # refresh the simulator copy (keeps target/)
-    sh(f"rsync -a --delete --exclude target --exclude target-ext /verif/sim/ {sim}/")
+    if live:
+        sh(f"rsync -a --delete --exclude target --exclude target-ext /verif/sim/ {sim}/")
+    else:
+        # the committed simulator, so that edits in progress under /verif/sim do not leak into a long round
+        sh(f"rm -rf {px}/simsrc && mkdir -p {px}/simsrc && git -C /verif archive HEAD sim | tar -x -C {px}/simsrc")
+        sh(f"rsync -a --delete --checksum --exclude target --exclude target-ext {px}/simsrc/sim/ {sim}/")
     sh(f"sed -i 's#\"/repo/#\"{wt}/#' lorasim/Cargo.toml physim/Cargo.toml", cwd=sim)
     if patch != "none":
         rc, o = sh(f"git apply {os.path.abspath(patch)}", cwd=wt)
